@@ -26,7 +26,9 @@ CLAIM = dict(
          "b1,b2>=1 and all histories; atomic visibility (another connection sees the view at the latest commit point; "
          "commit points are exactly flush/close/new descriptor/every batch-th insert); schema covers every descriptor "
          "written (column evolution); quoted identifiers lex back to the name for the whole name character set; value "
-         "round trip per field type over the extracted FIELD_MAP/SQLITE_FIELD_MAP. Tie: extracted tables/flags + "
+         "round trip per field type over the extracted FIELD_MAP/SQLITE_FIELD_MAP; several writer sessions on one file "
+         "store the plain replay of all their writes and cutting a history into sessions changes nothing "
+         "(C18_sessions_replay, C18_sessions_like_one_writer). Tie: extracted tables/flags + "
          "correspondence of committed tables after every call, outcomes and SqliteReader output, for 5 batch sizes.",
     note="partial: SQLite's isolation/affinity (SqliteLaws) and ISO-8601 print/parse (IsoLaws, C13) are hypotheses "
          "exercised by the harness; names are treated over the grammar's character set (C06 owns the regex); known "
